@@ -4,7 +4,7 @@
    `translated_io` lists what the translator could handle on this run; for a method that is not in it the statement is
    empty and the tie is the correspondence check alone (the harness reports which).  Statements only. *)
 From Coq Require Import ZArith List String.
-From PyUbx Require Import Base Bytes Reader Strs Consts PyMini PySrcIO Src_common ReaderTie.
+From PyUbx Require Import Base Bytes Reader Strs Consts PyMini PySrcIO Src_common Read_iter ReaderTie.
 Import ListNotations.
 Open Scope Z_scope.
 
@@ -75,7 +75,7 @@ Theorem C06_read_from_source (nmea_hdr : N -> bool) :
   (forall x, nmea_hdr x = existsb (N.eqb x) nmea_hdr2) ->
   forall fuel (w : world S),
   read_ok parse has_handler w (py_ioread rd rdl (attr c has_handler) (ext parse) (Datatypes.S fuel) w)
-          (read_one rd rdl parse nmea_hdr c fuel (w_stream w) []).
+          (Read_iter.read_one rd rdl parse nmea_hdr c fuel (w_stream w) []).
 Proof. intros. eapply read_agree; eassumption. Qed.
 End S.
 Print Assumptions C06_read_from_source.
